@@ -19,7 +19,7 @@ from harness import lang_env as E
 from harness import lang_gen as G
 
 GEN = ['lang_tables', 'lang_schemas']
-LEAN_MODULES = ['Mistral.Props.C14', 'Mistral.Props.C14Schema']
+LEAN_MODULES = ['Mistral.Props.C14', 'Mistral.Props.C14Schema', 'Mistral.Props.C14Ctor']
 MANIFEST = {
     'technique': 'Lean 4 theorems over a model of the workbook text cutter, spec-dict normalisation, the graph '
                  'checks of workflow validation and the JSON-schema level (a total interpreter of the schema keywords '
